@@ -102,6 +102,7 @@ var checks = map[string][]HarnessSpec{
 		{Name: "verifC16Expiry", Pkg: ".", Labels: []string{"hit", "miss"}},
 		{Name: "verifC16Cache", Pkg: ".", Labels: []string{"history", "cache-hit"}},
 		{Name: "verifC16Repeat", Pkg: ".", Labels: []string{"repeat"}},
+		{Name: "verifC16Keys", Pkg: ".", Labels: []string{"keys"}},
 		{Name: "verifC16Race", Pkg: ".", Labels: []string{"race-checked"}, Race: true},
 	},
 	"C17": {
